@@ -41,7 +41,8 @@ type Case struct {
 	Sizes     string `json:"sizes"`     // small | mixed | large
 	SlowSub   bool   `json:"slowsub"`   // subscribers read in small sips with pauses (their socket writes block)
 	QoS       int    `json:"qos"`
-	ReadRate  int    `json:"readrate"` // broker-side per-connection read rate limit (0 = default 100000/s): publishers get throttled
+	ReadRate  int    `json:"readrate"`        // broker-side per-connection read rate limit (0 = default 100000/s): publishers get throttled
+	Share     int    `json:"share,omitempty"` // members of one share group on the channel: each message goes to exactly one of them
 }
 
 var shared *vkit.Broker
@@ -206,11 +207,13 @@ func runCase(c Case) string {
 	type subState struct {
 		e      *endpoint
 		stable bool
+		share  bool
 		done   chan string
 		got    int64
+		seen   map[[2]int64]bool // share members: what this member received
 	}
 	var subs []*subState
-	for i := 0; i < c.Subs+c.Churners; i++ {
+	for i := 0; i < c.Subs+c.Churners+c.Share; i++ {
 		e, err := dial(b, c, true, rand.New(rand.NewSource(c.Seed+int64(1000+i))))
 		if err != nil {
 			return "dial: " + err.Error()
@@ -218,10 +221,14 @@ func runCase(c Case) string {
 		if err := connectEP(e, fmt.Sprintf("sub%d", i)); err != nil {
 			return "connect: " + err.Error()
 		}
-		s := &subState{e: e, stable: i < c.Subs, done: make(chan string, 1)}
+		s := &subState{e: e, stable: i < c.Subs, share: i >= c.Subs+c.Churners, done: make(chan string, 1), seen: map[[2]int64]bool{}}
 		subs = append(subs, s)
-		if s.stable {
-			if err := subscribeEP(e, ch); err != nil {
+		if s.stable || s.share {
+			filter := ch
+			if s.share {
+				filter = "$share/g1/" + ch
+			}
+			if err := subscribeEP(e, filter); err != nil {
 				return err.Error()
 			}
 			if cp, err := e.expect(packets.Suback); err != nil {
@@ -271,10 +278,13 @@ func runCase(c Case) string {
 						return
 					}
 					if !s.stable && seq <= next[pub] {
-						s.done <- fmt.Sprintf("subscriber %d (churning): publisher %d: message %d arrived after %d", si, pub, seq, next[pub])
+						s.done <- fmt.Sprintf("subscriber %d (churning / share member): publisher %d: message %d arrived after %d", si, pub, seq, next[pub])
 						return
 					}
 					next[pub] = seq
+					if s.share {
+						s.seen[[2]int64{int64(pub), seq}] = true
+					}
 					if n := atomic.AddInt64(&s.got, 1); s.stable && n == int64(total) {
 						s.done <- ""
 						return
@@ -291,7 +301,7 @@ func runCase(c Case) string {
 	stopChurn := make(chan struct{})
 	var churnWG sync.WaitGroup
 	for _, s := range subs {
-		if s.stable {
+		if s.stable || s.share {
 			continue
 		}
 		churnWG.Add(1)
@@ -374,6 +384,25 @@ func runCase(c Case) string {
 			}
 		}
 	}
+	if c.Share > 0 && msg == "" {
+		// every message went to exactly one member of the share group: together they hold each (publisher, seq) once
+		deadline := time.Now().Add(60 * time.Second)
+		for {
+			var sum int64
+			for _, s := range subs {
+				if s.share {
+					sum += atomic.LoadInt64(&s.got)
+				}
+			}
+			if sum >= int64(total) || time.Now().After(deadline) {
+				if sum != int64(total) {
+					msg = fmt.Sprintf("the %d members of share group g1 received %d messages together, %d were published (each goes to exactly one member)", c.Share, sum, total)
+				}
+				break
+			}
+			time.Sleep(2 * time.Millisecond)
+		}
+	}
 	close(stopChurn)
 	churnWG.Wait()
 	atomic.StoreInt32(&finished, 1)
@@ -390,6 +419,24 @@ func runCase(c Case) string {
 				msg = m
 			}
 		case <-time.After(30 * time.Second):
+		}
+	}
+	if c.Share > 0 && msg == "" {
+		union := map[[2]int64]int{}
+		for _, s := range subs {
+			if s.share {
+				for k := range s.seen {
+					union[k]++
+				}
+			}
+		}
+		for k, n := range union {
+			if n != 1 {
+				return fmt.Sprintf("message (%d,%d) was delivered to %d members of share group g1", k[0], k[1], n)
+			}
+		}
+		if len(union) != total {
+			return fmt.Sprintf("share group g1 received %d distinct messages, %d were published", len(union), total)
 		}
 	}
 	return msg
@@ -423,6 +470,9 @@ func TestConcurrentDelivery(t *testing.T) {
 		if c.Sizes == "large" {
 			c.PerPub = 100 + rng.Intn(200)
 		}
+		if r%2 == 1 {
+			c.Share = 2 + rng.Intn(2)
+		}
 		if r%6 == 5 { // one round in six with the broker's read-rate limiter engaged
 			c.ReadRate = 60
 			c.PerPub = 120 + rng.Intn(100)
@@ -437,6 +487,9 @@ func TestConcurrentDelivery(t *testing.T) {
 		}
 		if c.ReadRate > 0 {
 			labels = append(labels, "read-rate-limited")
+		}
+		if c.Share > 0 {
+			labels = append(labels, "share-group")
 		}
 		vkit.Record(t.Name(), c, vkit.Result{NonTrivial: c.Pubs >= 2, Labels: labels})
 	}
